@@ -228,6 +228,10 @@ class Ctx:
             if f.get("property") == self.prop and f.get("status") == "open":
                 open_classes[f["class"]] = f
         known, new = {}, []
+        if os.environ.get("VERIF_DUMP"):
+            with open(os.environ["VERIF_DUMP"], "w") as f:
+                for v in self.violations:
+                    f.write(json.dumps(v) + "\n")
         for v in self.violations:
             c = v.get("class", "none")
             if c in open_classes:
@@ -246,7 +250,7 @@ class Ctx:
             if key in seen:
                 continue
             seen.add(key)
-            if len(paths) < 25:
+            if len(paths) < 5:
                 os.makedirs(os.path.join(VERIF, "replay"), exist_ok=True)
                 path = os.path.join(VERIF, "replay", "%s-%s.json" % (self.prop, key))
                 json.dump(dict(property=self.prop, tier=self.tier, seed=self.seed, violation=v), open(path, "w"), indent=1)
